@@ -10,13 +10,13 @@ Print Assumptions mark_model_matches_source.
 
 (* D16 (before the repair): an object reachable only from a thread-local value is freed *)
 Theorem tls_item_callback_refuted :
-  reach d16_heap d16_reg d16_tls nil 8%N /\
-  collect false true d16_heap d16_reg 8%N 8%N 10 (cons 8%N nil) d16_tls nil = Ok (nempty, cons 8%N nil).
+  reach d16_heap d16_reg d16_tls nil w8 /\
+  collect false true d16_heap d16_reg w8 w8 10 (cons w8 nil) d16_tls nil = Ok (nempty, cons w8 nil).
 Proof. exact (conj MarkSweepProofs.d16_reachable MarkSweepProofs.d16_freed_pre). Qed.
 Print Assumptions tls_item_callback_refuted.
 
 (* D17 (before the repair): marking a heap Tuple that contains itself never terminates *)
 Theorem unguarded_recurse_refuted : forall fuel,
-  mark true false d17_heap d17_reg 8%N 8%N fuel (cons 8%N nil) nil (cons 8%N nil) nempty = OutOfFuel.
+  mark true false d17_heap d17_reg w8 w8 fuel (cons w8 nil) nil (cons w8 nil) nempty = OutOfFuel.
 Proof. exact MarkSweepProofs.d17_mark_diverges. Qed.
 Print Assumptions unguarded_recurse_refuted.
